@@ -396,8 +396,10 @@ func (w *world) sendVote(kind ucon.VoteType, sender int, hash common.Hash, varia
 		w.rig.HandleMsg(msg)
 	}
 	// ground truth: does this delivery add weight to the node's tally of the current (round, index)?
-	valid := sp.IsChamber() && sp.Online && cr.J >= 1 && r == w.round && ri == w.index &&
-		(variant == 0 || variant == 1 || variant == 2 || variant == 10) && !(kind == ucon.Certificate && !w.isCert())
+	// (decided from what was actually built, not from the variant number)
+	valid := sp.IsChamber() && sp.Online && cr.J >= 1 && votes == cr.J &&
+		r == w.round && ri == w.index && credRI == ri && credStep == step &&
+		sigHash == hash && msgKey == sp.Key && !(kind == ucon.Certificate && !w.isCert())
 	if !valid {
 		return
 	}
@@ -773,5 +775,5 @@ var _ = kit.Register(kit.Prop[Case]{
 	Name: "QuorumEscalation",
 	Rule: "4-6 validators (node = v0; senators/chancellors/house, online/offline), protocol triple as in C01, ordinary round or certificate round 32768 on a synthetic header table over the real validator trie; histories of step timers, next-index, honest and adversarial proposals (forged / non-maximal priority, inflated or zero seats, house/offline proposer, other sender key) and votes with genuine credentials delivered through the real MessageHandler.HandleMsg -> processVoteMsg path (duplicate, equivocation, wrong weight, credential of another step/index, stale/future index, other round, foreign message key, house/offline sender, signature over another block) plus 'members vote until the quorum is just crossed / just missed'. Oracle: tally model from generator ground truth (distinct valid non-equivocating senders, true weights): precommit only after a prevote quorum for exactly that block, certificate vote only after a precommit quorum, commit only after precommit (and certificate) quorums; every commit is assembled as Server.commit does and must be accepted by header verification. Non-trivial = the node escalated or committed AND the history has an adversarial delivery or lands next to the quorum",
 	Gen:  genCase, Run: runCase,
-	Quick: 120, Thorough: 2500, Chunk: 40, MinNonTrivialPct: 10,
+	Quick: 250, Thorough: 3000, Chunk: 50, MinNonTrivialPct: 12,
 })
